@@ -630,3 +630,45 @@ V('pd10-title-tokens', ['C01', 'C04'], 'yalafi/handlers.py', "        out = [def
 V('un1-order', ['C20'], GX, "            cont_length = len(cont_text[cont_offset:cont_offset+cont_length]\n                                    .encode())\n            cont_offset = len(cont_text[:cont_offset].encode())",
   "            cont_offset = len(cont_text[:cont_offset].encode())\n            cont_length = len(cont_text[cont_offset:cont_offset+cont_length]\n                                    .encode())", 'UN1')
 V('lc4-raw-code', ['C20', 'C12'], U, "    lang = parms.check_parser_lang(sec.lang)\n    repl = parms.parser_lang_settings[lang].lang_change_repl", "    repl = parms.parser_lang_settings.get(sec.lang, parms.lang_context).lang_change_repl", 'LC4')
+
+# ---- round 6 rules
+V('memo1-store', ['C09', 'C19'], P,
+  "                self.packages[name] = self.global_latex_options + options", "                self.packages[name] = options", 'MEMO1')
+V('memo1-unkn', ['C19'], P,
+  "                self.unknowns.append(tok.txt)", "                self.unknowns.append(tok.txt.strip())", 'MEMO1')
+V('memo1-neutral-alias', ['C09', 'C19'], P,
+  "            if name:\n                self.packages[name] = self.global_latex_options + options",
+  "            if name:\n                all_opts = self.global_latex_options + options\n                self.packages[name] = all_opts", [])
+V('lp1-break', ['C09', 'C19'], P,
+  "                if requ not in self.packages or self.packages[requ] == options:\n                    out += self.init_package(requ, utils.get_module_handler(\n                                        requ, self.parms.package_modules),\n                                        options, position)",
+  "                if requ in self.packages and self.packages[requ] != options:\n                    break\n                out += self.init_package(requ, utils.get_module_handler(\n                                        requ, self.parms.package_modules),\n                                        options, position)", 'LP1')
+V('lp1-neutral-continue', ['C09', 'C19'], P,
+  "                if requ not in self.packages or self.packages[requ] == options:\n                    out += self.init_package(requ, utils.get_module_handler(\n                                        requ, self.parms.package_modules),\n                                        options, position)",
+  "                if requ in self.packages and self.packages[requ] != options:\n                    continue\n                out += self.init_package(requ, utils.get_module_handler(\n                                        requ, self.parms.package_modules),\n                                        options, position)", [])
+V('cl1-nostrip', ['C19'], 'yalafi/handlers.py',
+  "        for p in packs.split(','):\n            p = p.strip()\n            if p:", "        for p in packs.strip().split(','):\n            if p:", 'CL1')
+V('cl1-guard', ['C19'], 'yalafi/shell/addpacks.py',
+  "                if p.strip():\n", "                if p.strip() and p.strip() != 'inputenc':\n", 'CL1')
+V('cl1-neutral-continue', ['C19'], 'yalafi/handlers.py',
+  "            p = p.strip()\n            if p:\n                f = utils.get_module_handler(p, prefix)\n                out += parser.init_package(p, f, options, pos)",
+  "            p = p.strip()\n            if not p:\n                continue\n            f = utils.get_module_handler(p, prefix)\n            out += parser.init_package(p, f, options, pos)", [])
+V('cl1-neutral-comp', ['C19'], 'yalafi/handlers.py',
+  "        for p in packs.split(','):\n            p = p.strip()\n            if p:", "        for p in [q.strip() for q in packs.split(',')]:\n            if p:", [])
+V('sk1-exact', ['C19', 'C03'], P,
+  "                    toks[i].txt.startswith(self.parms.comment_skip_begin)),", "                    toks[i].txt.rstrip() == self.parms.comment_skip_begin),", 'SK1')
+V('sk1-neutral-slice', ['C19', 'C03'], P,
+  "                    toks[i].txt.startswith(self.parms.comment_skip_end)),", "                    toks[i].txt[:len(self.parms.comment_skip_end)] == self.parms.comment_skip_end),", [])
+V('ml10-active', ['C12'], 'yalafi/packages/babel.py',
+  "    return [LanguageToken(pos, lang=lang, hard=True, brk=selectlang_break)]", "    if lang == parser.parms.lang_context_lang():\n        return []\n    return [LanguageToken(pos, lang=lang, hard=True, brk=selectlang_break)]", 'ML10')
+V('ml10-neutral-var', ['C12'], 'yalafi/packages/babel.py',
+  "    return [LanguageToken(pos, lang=lang, brk=otherlang_break)]", "    tok = LanguageToken(pos, lang=lang, brk=otherlang_break)\n    return [tok]", [])
+V('und1-noimport', ['C20', 'C15'], 'yalafi/shell/checks.py',
+  "from yalafi import tex2txt\n", "", 'UND1')
+V('und1-injected', ['C16', 'C15'], 'yalafi/shell/genhtml.py',
+  "    global highlight_style_unsure\n    highlight_style_unsure = vars.highlight_style_unsure\n", "", 'UND1')
+V('und1-typo', ['C07'], P,
+  "        return self.unknowns\n", "        return self.unknwons if False else self.unknowns\n", [])
+V('und1-typo-global', ['C07'], P,
+  "        return self.unknowns\n", "        return unknowns if self is None else self.unknowns\n", 'UND1')
+V('und1-neutral-import', ['C20', 'C15'], 'yalafi/shell/checks.py',
+  "from yalafi import tex2txt\n", "import yalafi.tex2txt as tex2txt\n", [])
